@@ -433,6 +433,7 @@ def project(out: Dict[str, Any]) -> Tuple[List[Tuple[int, str]], List[str]]:
             if s["probe"] is not None:
                 s["probe"][2] = "CProbe false"
             s["stage"] = "lockwait"
+            s["locktry"] = None
         elif in_init and op == "LockTry":
             if s["probe"] is not None:
                 s["probe"][2] = "CProbe false"
@@ -635,7 +636,7 @@ def run(ctx) -> None:
     for backend, init, kinds in plans:
         # two creators of a table that does not exist yet (nor does its lock file): EVERY schedule with at most two preemptions
         full = init == "absent" and kinds == ["create", "create"]
-        runs = list(explore(ctx, backend, init, kinds, 2 if quick else 3, (600 if full else 22 if init == "absent" else 6) if quick else 3000 if full else 300))
+        runs = list(explore(ctx, backend, init, kinds, 2 if quick else 3, (600 if full else 22 if init == "absent" else 6) if quick else 1500 if full else 300))
         for k in range(2 if quick else 40):
             seed = ctx.rng.randrange(1 << 30)
             runs.append(([("random", seed)], run_case(ctx, backend, init, kinds, lambda sc, seed=seed: S.random_chooser(_r.Random(seed), 0.4))))
